@@ -6,7 +6,18 @@
 
   The big straight-line Fiat primitives (sm2FromMontgomery, sm2ToBytes, sm2FromBytes, sm2ToMontgomery) are
   HYPOTHESES of the form `Computes …` (the body of the IR function, started on the encoded arguments,
-  returns the encoded result of the corresponding `FieldOps` primitive).
+  returns the encoded result of the corresponding `FieldOps` primitive): `BytesPrims`, `SetBytesPrims`.
+
+  Findings (model vs IR):
+  * MultiSelect: NO disagreement — `bits = 0` (the model's `bits + 255` is the byte `bits - 1`), `width > 256`
+    (`byte(i)` wraps on both sides), every `fallbackCond ≥ 0`, limbs ≥ 2^64 (cut by the masks on both sides) are
+    all covered by `ir_multiSelect_ok`; a table with fewer than `width` rows is a stuck run (`ir_multiSelect_stuck`).
+    Not expressible in the model (natural numbers): negative `width` / `fallbackCond`.
+  * Select: the model `Model.Field.select` (`if cond = 0 then b else a`) and the IR AGREE for `cond ∈ {0,1}`
+    (`ir_select_ok`) and DISAGREE otherwise: the IR (like the Go code, `sm2Uint1(cond)` being a plain conversion)
+    stores the bit-mix `selectN a b cond` (`ir_select_general`); counter-example `cond = 2`, a = [1,2,3,4],
+    b = [8,16,32,64]: IR [0,2,2,4], model [1,2,3,4] (`select_cond2_disagrees`).
+  * SetBytes: on both error paths the IR returns (receiver unchanged, a zero element standing for `nil`, 1).
 -/
 import SMGo.Proofs.CTIRRefineUtils
 import SMGo.Gen.CTIRProg
@@ -646,6 +657,1007 @@ theorem cmov_body_ok (out1 : Val) (c a2 a3 : Nat) :
   rw [fn_11_body]
   exact ⟨e3, (EvIn.seq (EvIn.assign s1) (EvIn.seq (EvIn.assign s2) (EvIn.seq (EvIn.assign s3) (EvIn.ret sr)))).mono (by decide)⟩
 
+
+/-- the `k`-th call of sm2CmovznzU64 in sm2Selectznz with its store `out1[k] = t` -/
+def szPair (t k : Nat) : List Stmt :=
+  [.call [t] 11 [(.idxc (.var 0) k), (.var 1), (.idxc (.var 2) k), (.idxc (.var 3) k)], .assign 0 [.c k] (.var t)]
+
+theorem fn_10_body : fn_10.body =
+    seqs ((szPair 5 0 ++ (szPair 6 1 ++ (szPair 7 2 ++ szPair 8 3))) ++ [.ret [(.var 0)]]) := rfl
+
+structure InvSZ (env : Env) (o : List Nat) (c : Nat) (a2 a3 : List Nat) : Prop where
+  h0 : env 0 = limbsV o
+  h1 : env 1 = .int (c : Int)
+  h2 : env 2 = limbsV a2
+  h3 : env 3 = limbsV a3
+
+theorem sz_pair (h11 : P[11]? = some fn_11) {env : Env} {t k : Nat} {o a2 a3 : List Nat} {c : Nat}
+    (h : InvSZ env o c a2 a3) (ht : 4 ≤ t) (hk : k < o.length) (hk2 : k < a2.length) (hk3 : k < a3.length) :
+    ∃ env', Pre P G X 11 env (szPair t k) env' ∧
+      InvSZ env' (o.set k (cmovN c (a2.getD k 0) (a3.getD k 0))) c a2 a3 := by
+  obtain ⟨h0, h1, h2, h3⟩ := h
+  have q0 : evalV G env (.idxc (.var 0) k) = some (.int ((o.getD k 0 : Nat) : Int)) :=
+    evalV_limb (by rw [evalV_var, h0]) hk
+  have q2 : evalV G env (.idxc (.var 2) k) = some (.int ((a2.getD k 0 : Nat) : Int)) :=
+    evalV_limb (by rw [evalV_var, h2]) hk2
+  have q3 : evalV G env (.idxc (.var 3) k) = some (.int ((a3.getD k 0 : Nat) : Int)) :=
+    evalV_limb (by rw [evalV_var, h3]) hk3
+  have ha : evalVs G env [(.idxc (.var 0) k), (.var 1), (.idxc (.var 2) k), (.idxc (.var 3) k)]
+      = some [.int ((o.getD k 0 : Nat) : Int), .int (c : Int), .int ((a2.getD k 0 : Nat) : Int), .int ((a3.getD k 0 : Nat) : Int)] := by
+    simp only [evalVs_cons, evalVs_nil, q0, evalV_var, h1, q2, q3]
+  obtain ⟨envc, hb⟩ := cmov_body_ok (P := P) (G := G) (X := X) (.int ((o.getD k 0 : Nat) : Int)) c (a2.getD k 0) (a3.getD k 0)
+  let e1 := env.set t (.int ((cmovN c (a2.getD k 0) (a3.getD k 0) : Nat) : Int))
+  have c1 : EvIn P G X 8 env (.call [t] 11 [(.idxc (.var 0) k), (.var 1), (.idxc (.var 2) k), (.idxc (.var 3) k)]) e1 .norm :=
+    EvIn.call ha h11 rfl rfl hb rfl
+  have s : evalV G e1 (.var t) = some (.int ((cmovN c (a2.getD k 0) (a3.getD k 0) : Nat) : Int)) := by
+    simp [e1, Env.set]
+  have g0 : e1 0 = limbsV o := (Env.set_other env _ (by omega : 0 ≠ t)).trans h0
+  have c2 := EvIn.assignLimb (P := P) (X := X) (x := 0) s g0 hk
+  refine ⟨_, (Pre.cons c1 (Pre.cons c2 (Pre.nil _))).mono (by decide), ⟨Env.set_same _ _ _, ?_, ?_, ?_⟩⟩
+  · exact (Env.set_other _ _ (by omega : (1 : Nat) ≠ 0)).trans ((Env.set_other env _ (by omega : 1 ≠ t)).trans h1)
+  · exact (Env.set_other _ _ (by omega : (2 : Nat) ≠ 0)).trans ((Env.set_other env _ (by omega : 2 ≠ t)).trans h2)
+  · exact (Env.set_other _ _ (by omega : (3 : Nat) ≠ 0)).trans ((Env.set_other env _ (by omega : 3 ≠ t)).trans h3)
+
+/-- what `sm2Selectznz(&out, arg1, &arg2, &arg3)` stores -/
+def selznzN (c : Nat) (a2 a3 : List Nat) : List Nat :=
+  [cmovN c (a2.getD 0 0) (a3.getD 0 0), cmovN c (a2.getD 1 0) (a3.getD 1 0),
+   cmovN c (a2.getD 2 0) (a3.getD 2 0), cmovN c (a2.getD 3 0) (a3.getD 3 0)]
+
+/-- sm2Selectznz, body level, in any program whose function 11 is sm2CmovznzU64 -/
+theorem selznz_body_ok (h11 : P[11]? = some fn_11) (o a2 a3 : List Nat) (c : Nat)
+    (ho : o.length = 4) (h2 : 4 ≤ a2.length) (h3 : 4 ≤ a3.length) :
+    ∃ env', EvIn P G X 45 (Env.ofList [limbsV o, .int (c : Int), limbsV a2, limbsV a3]) fn_10.body env'
+      (.ret [limbsV (selznzN c a2 a3)]) := by
+  obtain ⟨x0, x1, x2, x3, rfl⟩ := len4 o ho
+  have i0 : InvSZ (Env.ofList [limbsV [x0, x1, x2, x3], .int (c : Int), limbsV a2, limbsV a3]) [x0, x1, x2, x3] c a2 a3 :=
+    ⟨rfl, rfl, rfl, rfl⟩
+  obtain ⟨e1, p1, i1⟩ := sz_pair (G := G) (X := X) h11 (t := 5) (k := 0) i0 (by omega) (by simp) (by omega) (by omega)
+  obtain ⟨e2, p2, i2⟩ := sz_pair (G := G) (X := X) h11 (t := 6) (k := 1) i1 (by omega) (by simp) (by omega) (by omega)
+  obtain ⟨e3, p3, i3⟩ := sz_pair (G := G) (X := X) h11 (t := 7) (k := 2) i2 (by omega) (by simp) (by omega) (by omega)
+  obtain ⟨e4, p4, i4⟩ := sz_pair (G := G) (X := X) h11 (t := 8) (k := 3) i3 (by omega) (by simp) (by omega) (by omega)
+  have sr : evalVs G e4 [(.var 0)] = some [limbsV (selznzN c a2 a3)] := by
+    simp only [evalVs_cons, evalVs_nil, evalV_var, i4.h0]
+    rfl
+  rw [fn_10_body]
+  exact ⟨e4, ((Pre.append p1 (Pre.append p2 (Pre.append p3 p4)) _).1 _ _ _ (EvIn.ret sr)).mono (by decide)⟩
+
+/-- what `v.Select(a, b, cond)` stores for ANY `cond ≥ 0`: limb-wise
+    `(m & a[k]) | (^m & b[k])` with `m = uint64(cond) * 0xffffffffffffffff` -/
+def selectN (a b : List Nat) (cond : Nat) : List Nat := selznzN (cond % 18446744073709551616) b a
+
+theorem fn_9_body : fn_9.body =
+    seqs ([.call [5] 10 [(.idxc (.var 0) 0), (.op1 (.conv .u64) (.var 3)), (.idxc (.var 2) 0), (.idxc (.var 1) 0)],
+      .assign 0 [.c 0] (.var 5)] ++ [.seq (.ret [(.var 0), (.var 0)]) .panic]) := rfl
+
+theorem evalV_field0 {env : Env} {x : Nat} {l : List Nat} (h : env x = elemV l) :
+    evalV G env (.idxc (.var x) 0) = some (limbsV l) := by
+  simp only [evalV_idxc, evalV_var, h, elemV]
+  rfl
+
+/-- Select, body level, in any program whose functions 10, 11 are sm2Selectznz, sm2CmovznzU64 -/
+theorem select_body_ok (h10 : P[10]? = some fn_10) (h11 : P[11]? = some fn_11) (v0 a b : List Nat) (cond : Nat)
+    (hv : v0.length = 4) (ha : 4 ≤ a.length) (hb : 4 ≤ b.length) :
+    ∃ env', EvIn P G X 53 (Env.ofList [elemV v0, elemV a, elemV b, .int (cond : Int)]) fn_9.body env'
+      (.ret [elemV (selectN a b cond), elemV (selectN a b cond)]) := by
+  let e0 : Env := Env.ofList [elemV v0, elemV a, elemV b, .int (cond : Int)]
+  let r := selectN a b cond
+  let e1 := e0.set 5 (limbsV r)
+  let e2 := e1.set 0 (elemV r)
+  have hargs : evalVs G e0 [(.idxc (.var 0) 0), (.op1 (.conv .u64) (.var 3)), (.idxc (.var 2) 0), (.idxc (.var 1) 0)]
+      = some [limbsV v0, .int ((cond % 18446744073709551616 : Nat) : Int), limbsV b, limbsV a] := by
+    have q0 : evalV G e0 (.idxc (.var 0) 0) = some (limbsV v0) := evalV_field0 rfl
+    have q1 : evalV G e0 (.idxc (.var 1) 0) = some (limbsV a) := evalV_field0 rfl
+    have q2 : evalV G e0 (.idxc (.var 2) 0) = some (limbsV b) := evalV_field0 rfl
+    have g3 : e0 3 = .int (cond : Int) := rfl
+    simp only [evalVs_cons, evalVs_nil, q0, q1, q2, evalV_op1, evalV_var, g3, evalOp1, norm]
+    rfl
+  obtain ⟨envc, hbody⟩ := selznz_body_ok (P := P) (G := G) (X := X) h11 v0 b a (cond % 18446744073709551616) hv hb ha
+  have c1 : EvIn P G X 46 e0 (.call [5] 10 [(.idxc (.var 0) 0), (.op1 (.conv .u64) (.var 3)), (.idxc (.var 2) 0), (.idxc (.var 1) 0)]) e1 .norm :=
+    EvIn.call hargs h10 rfl rfl hbody rfl
+  have c2 : EvIn P G X 1 e1 (.assign 0 [.c 0] (.var 5)) e2 .norm := by
+    have s : evalV G e1 (.var 5) = some (limbsV r) := by simp [e1, Env.set]
+    have g0 : e1 0 = .arr [limbsV v0] := by simp [e1, e0, Env.set, Env.ofList, elemV]
+    exact EvIn.assignPath s (ks := [0]) (by simp [pathV_c]) (by rw [g0, updPath_c1 _ _ _ (by simp)]; rfl)
+  have sr : evalVs G e2 [(.var 0), (.var 0)] = some [elemV r, elemV r] := by simp [evalVs_cons, e2, Env.set]
+  rw [fn_9_body]
+  exact ⟨e2, ((Pre.cons c1 (Pre.cons c2 (Pre.nil _)) _).1 _ _ _ (EvIn.seq_stop (EvIn.ret sr) (by simp))).mono (by decide)⟩
+
 end Select
+
+section SelectWhole
+variable {G : Nat → Val} {X : Oracle}
+
+def fuelSelect : Nat := 54
+
+theorem fn9_lookup : prog[f_fiat_SM2Element_Select]? = some fn_9 := rfl
+
+/-- **Select**, every `cond ≥ 0`: the IR stores (and returns) the limb-wise mix `selectN a b cond` -/
+theorem ir_select_general (v0 a b : List Nat) (cond : Nat) (hv : v0.length = 4) (ha : 4 ≤ a.length) (hb : 4 ≤ b.length) :
+    ∀ f, fuelSelect ≤ f →
+      runV prog G X f f_fiat_SM2Element_Select [elemV v0, elemV a, elemV b, .int (cond : Int)]
+        = .ret [elemV (selectN a b cond), elemV (selectN a b cond)] := by
+  obtain ⟨env', hb⟩ := select_body_ok (P := prog) (G := G) (X := X) rfl rfl v0 a b cond hv ha hb
+  intro f hf
+  exact runV_of_EvIn fn9_lookup rfl rfl hb f (by simp only [fuelSelect] at hf; omega)
+
+/-- on `cond ∈ {0, 1}` and elements of four limbs below 2^64 the mix is the model's `select` -/
+theorem selectN_eq_model (a b : List Nat) (cond : Nat) (ha : Out4 a) (hb : Out4 b) (hc : cond ≤ 1) :
+    selectN a b cond = Model.Field.select a b cond := by
+  obtain ⟨a0, a1, a2, a3, rfl, ha0, ha1, ha2, ha3⟩ := ha
+  obtain ⟨b0, b1, b2, b3, rfl, hb0, hb1, hb2, hb3⟩ := hb
+  have : cond = 0 ∨ cond = 1 := by omega
+  rcases this with rfl | rfl
+  · simp only [selectN, selznzN, Model.Field.select, Nat.zero_mod, List.getD_cons_zero, List.getD_cons_succ,
+      cmovN_zero _ _ hb0, cmovN_zero _ _ hb1, cmovN_zero _ _ hb2, cmovN_zero _ _ hb3, if_true]
+  · simp only [selectN, selznzN, Model.Field.select, show 1 % 18446744073709551616 = 1 from rfl, List.getD_cons_zero,
+      List.getD_cons_succ, cmovN_one _ _ ha0, cmovN_one _ _ ha1, cmovN_one _ _ ha2, cmovN_one _ _ ha3]
+    rfl
+
+/-- **Select** = `Model.Field.select` for `cond ∈ {0, 1}` -/
+theorem ir_select_ok (v0 a b : List Nat) (cond : Nat) (hv : v0.length = 4) (ha : Out4 a) (hb : Out4 b) (hc : cond ≤ 1) :
+    ∀ f, fuelSelect ≤ f →
+      runV prog G X f f_fiat_SM2Element_Select [elemV v0, elemV a, elemV b, .int (cond : Int)]
+        = .ret [elemV (Model.Field.select a b cond), elemV (Model.Field.select a b cond)] := by
+  rw [← selectN_eq_model a b cond ha hb hc]
+  exact ir_select_general v0 a b cond hv (by rw [ha.length]; omega) (by rw [hb.length]; omega)
+
+/-- DISAGREEMENT outside `cond ∈ {0, 1}`: for `cond = 2`, a = [1,2,3,4], b = [8,16,32,64] the IR (as the Go
+    code: `sm2Uint1(cond)` is a plain conversion to uint64, the mask is `2 * 0xff…ff = 0xff…fe`) stores the
+    bit-mix [0,2,2,4], the model `Model.Field.select` (`if cond = 0 then b else a`) says a = [1,2,3,4] -/
+theorem select_cond2_disagrees :
+    selectN [1, 2, 3, 4] [8, 16, 32, 64] 2 = [0, 2, 2, 4] ∧
+      Model.Field.select [1, 2, 3, 4] [8, 16, 32, 64] 2 = [1, 2, 3, 4] := by
+  decide
+
+end SelectWhole
+
+
+/-! ## 3. Bytes, IsZero, Equal, SetBytes modulo the Fiat primitives -/
+
+/-! ### sm2InvertEndianness: reverses an array in place (fully proved, any array) -/
+
+def ieIdx : Expr := .op2 (.sub .i64) (.op2 (.sub .i64) (.len (.var 0)) (.lit 1)) (.var 2)
+def ieCond : Expr := .op2 .lt (.var 2) (.op1 (.shrc 1) (.len (.var 0)))
+def ieBody : Stmt := seqs [.assign 3 [] (.idx (.var 0) ieIdx),
+    .assign 4 [] (.idx (.var 0) (.var 2)),
+    .assign 0 [.e (.var 2)] (.var 3),
+    .assign 0 [.e ieIdx] (.var 4)]
+def iePost : Stmt := .assign 2 [] (.op2 (.add .i64) (.var 2) (.lit 1))
+def ieLoop : Stmt := .loop ieCond ieBody iePost
+
+theorem fn_32_body : fn_32.body = seqs [.assign 2 [] (.lit 0), ieLoop, .ret [(.var 0)]] := rfl
+
+section InvertEndianness
+variable {P : Prog} {G : Nat → Val} {X : Oracle}
+
+/-- `x[ie] = e`, computed index -/
+theorem _root_.SMGo.Model.CTIR.EvIn.assignIdxE {env : Env} {x : Nat} {ie e : Expr} {l : List Val} {k : Nat} {v : Val}
+    (he : evalV G env e = some v) (hi : evalV G env ie = some (.int (k : Int))) (hx : env x = .arr l) (hk : k < l.length) :
+    EvIn P G X 1 env (.assign x [.e ie] e) (env.set x (.arr (l.set k v))) .norm := by
+  refine EvIn.assignPath he (ks := [k]) ?_ ?_
+  · have : ¬ ((k : Int) < 0) := by omega
+    simp [pathV_e, hi, this]
+  · rw [hx, updPath_c1 _ _ _ hk]
+
+theorem ie_idx {env : Env} {cur : List Val} {i : Nat} (h0 : env 0 = .arr cur) (h2 : env 2 = .int (i : Int))
+    (hn : cur.length < 9223372036854775808) (hi : i < cur.length) :
+    evalV G env ieIdx = some (.int ((cur.length - 1 - i : Nat) : Int)) := by
+  simp only [ieIdx, evalV_op2, evalV_len, evalV_var, evalV_lit, h0, h2, evalOp2, Option.map_some]
+  rw [norm_i64_small (n := (cur.length : Int) - 1) (by omega) (by omega), norm_i64_small (by omega) (by omega)]
+  congr 2; omega
+
+theorem ie_cond {env : Env} {cur : List Val} {i : Nat} (h0 : env 0 = .arr cur) (h2 : env 2 = .int (i : Int)) :
+    evalV G env ieCond = some (.int (ofBool (decide (i < cur.length / 2)))) := by
+  have e : ((cur.length : Int) >>> 1) = ((cur.length / 2 : Nat) : Int) := by
+    rw [show ((cur.length : Int) >>> 1) = ((cur.length >>> 1 : Nat) : Int) from rfl, Nat.shiftRight_eq_div_pow]
+  simp only [ieCond, evalV_op2, evalV_op1, evalV_len, evalV_var, h0, h2, evalOp2, evalOp1, Option.map_some, e]
+  congr 3
+  simp only [decide_eq_decide]
+  omega
+
+/-- one round: swap positions `i` and `n-1-i` -/
+theorem ie_body_round {env : Env} {cur : List Val} {i : Nat} {x y : Val} (h0 : env 0 = .arr cur) (h2 : env 2 = .int (i : Int))
+    (hn : cur.length < 9223372036854775808) (hi : i < cur.length)
+    (hx : cur[cur.length - 1 - i]? = some x) (hy : cur[i]? = some y) :
+    ∃ env1, EvIn P G X 7 env ieBody env1 .norm ∧ env1 0 = .arr ((cur.set i x).set (cur.length - 1 - i) y) ∧
+      env1 2 = .int (i : Int) := by
+  let e1 := env.set 3 x
+  let e2 := e1.set 4 y
+  let e3 := e2.set 0 (.arr (cur.set i x))
+  let e4 := e3.set 0 (.arr ((cur.set i x).set (cur.length - 1 - i) y))
+  have s1 : evalV G env (.idx (.var 0) ieIdx) = some x := by
+    rw [evalV_idx, evalV_var, h0, ie_idx h0 h2 hn hi]
+    simp only [getIdx_ofNat, hx]
+  have s2 : evalV G e1 (.idx (.var 0) (.var 2)) = some y := by
+    have g0 : e1 0 = .arr cur := by simp [e1, Env.set, h0]
+    have g2 : e1 2 = .int (i : Int) := by simp [e1, Env.set, h2]
+    simp only [evalV_idx, evalV_var, g0, g2, getIdx_ofNat, hy]
+  have a3 : EvIn P G X 1 e2 (.assign 0 [.e (.var 2)] (.var 3)) e3 .norm :=
+    EvIn.assignIdxE (l := cur) (k := i) (by simp [e2, e1, Env.set]) (by simp [e2, e1, Env.set, h2])
+      (by simp [e2, e1, Env.set, h0]) hi
+  have a4 : EvIn P G X 1 e3 (.assign 0 [.e ieIdx] (.var 4)) e4 .norm := by
+    have g0 : e3 0 = .arr (cur.set i x) := by simp [e3, Env.set]
+    have g2 : e3 2 = .int (i : Int) := by simp [e3, e2, e1, Env.set, h2]
+    have hi' := ie_idx (G := G) g0 g2 (by simpa using hn) (by simpa using hi)
+    rw [List.length_set] at hi'
+    exact EvIn.assignIdxE (l := cur.set i x) (k := cur.length - 1 - i) (by simp [e3, e2, Env.set]) hi' g0
+      (by rw [List.length_set]; omega)
+  refine ⟨e4, ?_, ?_, ?_⟩
+  · exact (EvIn.seq (EvIn.assign s1) (EvIn.seq (EvIn.assign s2) (EvIn.seq a3 a4))).mono (by decide)
+  · simp [e4, Env.set]
+  · simp [e4, e3, e2, e1, Env.set, h2]
+
+/-- after `i` rounds the first `i` and the last `i` positions are exchanged -/
+def Swapped (l cur : List Val) (i : Nat) : Prop :=
+  cur.length = l.length ∧
+    ∀ j, j < l.length → cur[j]? = if j < i ∨ l.length - i ≤ j then l[l.length - 1 - j]? else l[j]?
+
+theorem swapped_zero (l : List Val) : Swapped l l 0 := by
+  refine ⟨rfl, fun j hj => ?_⟩
+  have : ¬ (j < 0 ∨ l.length - 0 ≤ j) := by omega
+  rw [if_neg this]
+
+theorem swapped_step {l cur : List Val} {i : Nat} (h : Swapped l cur i) (hi : i < l.length / 2) :
+    ∃ x y, cur[cur.length - 1 - i]? = some x ∧ cur[i]? = some y ∧
+      Swapped l ((cur.set i x).set (cur.length - 1 - i) y) (i + 1) := by
+  obtain ⟨hlen, hc⟩ := h
+  have hx := hc (l.length - 1 - i) (by omega)
+  have hy := hc i (by omega)
+  rw [if_neg (by omega)] at hx hy
+  have hx' : l[l.length - 1 - i]? = some (l[l.length - 1 - i]'(by omega)) := List.getElem?_eq_getElem (by omega)
+  have hy' : l[i]? = some (l[i]'(by omega)) := List.getElem?_eq_getElem (by omega)
+  refine ⟨l[l.length - 1 - i]'(by omega), l[i]'(by omega), by rw [hlen, hx, hx'], by rw [hy, hy'], ?_, ?_⟩
+  · simp [hlen]
+  · intro j hj
+    rw [hlen, List.getElem?_set, List.getElem?_set]
+    by_cases h1 : l.length - 1 - i = j
+    · subst h1
+      rw [if_pos rfl, if_pos (by rw [List.length_set]; omega), if_pos (by omega)]
+      rw [← hy']; congr 1; omega
+    · rw [if_neg h1]
+      by_cases h2 : i = j
+      · subst h2
+        rw [if_pos rfl, if_pos (by omega), if_pos (by omega), ← hx']
+      · rw [if_neg h2, hc j hj]
+        by_cases h3 : j < i ∨ l.length - i ≤ j
+        · rw [if_pos h3, if_pos (by omega)]
+        · rw [if_neg h3, if_neg (by omega)]
+
+theorem swapped_done {l cur : List Val} (h : Swapped l cur (l.length / 2)) : cur = l.reverse := by
+  obtain ⟨hlen, hc⟩ := h
+  apply List.ext_getElem?
+  intro j
+  by_cases hj : j < l.length
+  · rw [hc j hj, List.getElem?_reverse hj]
+    by_cases h3 : j < l.length / 2 ∨ l.length - l.length / 2 ≤ j
+    · rw [if_pos h3]
+    · rw [if_neg h3]; congr 1; omega
+  · rw [List.getElem?_eq_none (by omega), List.getElem?_eq_none (by rw [List.length_reverse]; omega)]
+
+theorem ie_post {env : Env} {cur : List Val} {i : Nat} (h0 : env 0 = .arr cur) (h2 : env 2 = .int (i : Int))
+    (hi : i + 1 < 9223372036854775808) :
+    ∃ env2, EvIn P G X 1 env iePost env2 .norm ∧ env2 0 = .arr cur ∧ env2 2 = .int ((i + 1 : Nat) : Int) := by
+  have s : evalV G env (.op2 (.add .i64) (.var 2) (.lit 1)) = some (.int ((i + 1 : Nat) : Int)) := by
+    simp only [evalV_op2, evalV_var, evalV_lit, h2, evalOp2, Option.map_some]
+    rw [norm_i64_small (by omega) (by omega)]
+    rfl
+  exact ⟨env.set 2 (.int ((i + 1 : Nat) : Int)), EvIn.assign s, by simp [Env.set, h0], by simp [Env.set]⟩
+
+theorem ie_loop_ok (l : List Val) (hn : l.length < 9223372036854775808) : ∀ (m i : Nat) (env : Env) (cur : List Val),
+    env 0 = .arr cur → env 2 = .int (i : Int) → Swapped l cur i → i + m = l.length / 2 →
+    ∃ env', EvIn P G X (9 * m + 1) env ieLoop env' .norm ∧ env' 0 = .arr l.reverse := by
+  intro m
+  induction m with
+  | zero =>
+    intro i env cur h0 h2 hs him
+    have hc := ie_cond (G := G) h0 h2
+    rw [hs.1, show decide (i < l.length / 2) = false from by simp; omega] at hc
+    have : i = l.length / 2 := by omega
+    subst this
+    exact ⟨env, EvIn.loop_exit hc rfl, by rw [h0, swapped_done hs]⟩
+  | succ m ih =>
+    intro i env cur h0 h2 hs him
+    have hc := ie_cond (G := G) h0 h2
+    rw [hs.1, show decide (i < l.length / 2) = true from by simp; omega] at hc
+    obtain ⟨x, y, hx, hy, hs'⟩ := swapped_step hs (by omega)
+    obtain ⟨env1, hbody, b0, b2⟩ := ie_body_round (P := P) (G := G) (X := X) h0 h2 (by rw [hs.1]; exact hn)
+      (by rw [hs.1]; omega) hx hy
+    obtain ⟨env2, hpost, p0, p2⟩ := ie_post (P := P) (G := G) (X := X) b0 b2 (by omega)
+    obtain ⟨env', hl, r0⟩ := ih (i + 1) env2 _ p0 p2 hs' (by omega)
+    exact ⟨env', (EvIn.loop_round hc rfl hbody (Or.inl rfl) hpost hl).mono (by omega), r0⟩
+
+/-- fuel for sm2InvertEndianness on an array of length `n` -/
+def fuelIE (n : Nat) : Nat := 9 * (n / 2) + 8
+
+/-- sm2InvertEndianness, body level, any program (calls nothing), any array shorter than 2^63 -/
+theorem ie_fn_body_ok (l : List Val) (hn : l.length < 9223372036854775808) :
+    ∃ env', EvIn P G X (fuelIE l.length - 1) (Env.ofList [.arr l]) fn_32.body env' (.ret [.arr l.reverse]) := by
+  have a1 : EvIn P G X 1 (Env.ofList [.arr l]) (.assign 2 [] (.lit 0)) ((Env.ofList [.arr l]).set 2 (.int ((0 : Nat) : Int))) .norm :=
+    EvIn.assign rfl
+  obtain ⟨env', hl, r0⟩ := ie_loop_ok (P := P) (G := G) (X := X) l hn (l.length / 2) 0
+    ((Env.ofList [.arr l]).set 2 (.int ((0 : Nat) : Int))) l (by simp [Env.set, Env.ofList]) (by simp [Env.set]) (swapped_zero l) (by omega)
+  have sr : evalVs G env' [(.var 0)] = some [.arr l.reverse] := by simp [evalVs_cons, r0]
+  rw [fn_32_body]
+  exact ⟨env', (EvIn.seq a1 (EvIn.seq hl (EvIn.ret sr))).mono (by simp only [fuelIE]; omega)⟩
+
+theorem fn32_lookup : prog[f_fiat_sm2InvertEndianness]? = some fn_32 := rfl
+
+/-- **sm2InvertEndianness** reverses its argument, for every array (of any values) shorter than 2^63 -/
+theorem ir_invertEndianness (l : List Val) (hn : l.length < 9223372036854775808) :
+    ∀ f, fuelIE l.length ≤ f → runV prog G X f f_fiat_sm2InvertEndianness [.arr l] = .ret [.arr l.reverse] := by
+  obtain ⟨env', hb⟩ := ie_fn_body_ok (P := prog) (G := G) (X := X) l hn
+  intro f hf
+  exact runV_of_EvIn fn32_lookup rfl rfl hb f (by simp only [fuelIE] at hf ⊢; omega)
+
+end InvertEndianness
+
+
+/-! ### Functions as hypotheses: `Computes` -/
+
+/-- function `g` of `P` is a real function and its body, started on `args`, returns `res` with any fuel ≥ `F` -/
+def Computes (P : Prog) (G : Nat → Val) (X : Oracle) (g F : Nat) (args res : List Val) : Prop :=
+  ∃ fn env', P[g]? = some fn ∧ fn.stub = false ∧ args.length = fn.nparams ∧
+    EvIn P G X F (Env.ofList args) fn.body env' (.ret res)
+
+section ComputesLemmas
+variable {P : Prog} {G : Nat → Val} {X : Oracle}
+
+theorem Computes.of_body {g F : Nat} {args res : List Val} {fn : Fn} {env' : Env} (hg : P[g]? = some fn)
+    (hs : fn.stub = false) (hn : args.length = fn.nparams) (h : EvIn P G X F (Env.ofList args) fn.body env' (.ret res)) :
+    Computes P G X g F args res := ⟨fn, env', hg, hs, hn, h⟩
+
+theorem Computes.mono {g F F' : Nat} {args res : List Val} (h : Computes P G X g F args res) (hF : F ≤ F') :
+    Computes P G X g F' args res := by
+  obtain ⟨fn, env', hg, hs, hn, hb⟩ := h
+  exact ⟨fn, env', hg, hs, hn, hb.mono hF⟩
+
+/-- a call statement of a function that `Computes` -/
+theorem Computes.call {g F : Nat} {vs rs : List Val} (h : Computes P G X g F vs rs) {env env1 : Env} {lhs : List Nat}
+    {args : List Expr} (ha : evalVs G env args = some vs) (hset : env.setMany lhs rs = some env1) :
+    EvIn P G X (F + 1) env (.call lhs g args) env1 .norm := by
+  obtain ⟨fn, env', hg, hs, hn, hb⟩ := h
+  exact EvIn.call ha hg hs hn hb hset
+
+theorem Computes.runV {g F : Nat} {args res : List Val} (h : Computes P G X g F args res) :
+    ∀ f, F ≤ f → runV P G X f g args = .ret res := by
+  obtain ⟨fn, env', hg, hs, hn, hb⟩ := h
+  exact runV_of_EvIn hg hs hn hb
+
+/-- sm2InvertEndianness as a `Computes` fact -/
+theorem ie_computes (h32 : P[32]? = some fn_32) (l : List Val) (hn : l.length < 9223372036854775808) :
+    Computes P G X 32 (fuelIE l.length - 1) [.arr l] [.arr l.reverse] := by
+  obtain ⟨env', hb⟩ := ie_fn_body_ok (P := P) (G := G) (X := X) l hn
+  exact Computes.of_body h32 rfl rfl hb
+
+end ComputesLemmas
+
+/-! ### bytes and Bytes -/
+
+theorem bytesV_reverse (b : Bytes) : bytesV b.reverse = .arr (b.map (fun x => Val.int (Int.ofNat x.toNat))).reverse := by
+  simp only [bytesV, List.map_reverse]
+
+theorem fn_29_body : fn_29.body =
+    seqs ([.assign 3 [] (.mk (.lit 4) (.lit 0)),
+      .call [3] 30 [(.var 3), (.idxc (.var 0) 0)],
+      .call [1] 31 [(.var 1), (.var 3)],
+      .call [1] 32 [(.var 1)]] ++ [.seq (.ret [(.var 1), (.var 1)]) .panic]) := rfl
+
+theorem fn_28_body : fn_28.body =
+    seqs ([.assign 2 [] (.mk (.lit 32) (.lit 0)),
+      .call [2, 3] 29 [(.var 0), (.var 2)]] ++ [.seq (.ret [(.var 3)]) .panic]) := rfl
+
+section BytesFn
+variable {P : Prog} {G : Nat → Val} {X : Oracle}
+
+/-- fuel for `(*SM2Element).bytes` given the fuels of sm2FromMontgomery and sm2ToBytes and the length of the encoding -/
+def fuelbytes (Fm Ft n : Nat) : Nat := Fm + Ft + fuelIE n + 12
+
+/-- `(*SM2Element).bytes`, on raw values: limbs `e`, `fm` = what sm2FromMontgomery computes from `e` (into a zeroed
+    `tmp`), `tb` = what sm2ToBytes computes from `fm` (into `out`) -/
+theorem bytes_computes (h29 : P[29]? = some fn_29) (h32 : P[32]? = some fn_32) {Fm Ft : Nat} (e fm : List Nat) (out tb : Bytes)
+    (hFM : Computes P G X 30 Fm [limbsV [0, 0, 0, 0], limbsV e] [limbsV fm])
+    (hTB : Computes P G X 31 Ft [bytesV out, limbsV fm] [bytesV tb])
+    (hlen : tb.length < 9223372036854775808) :
+    Computes P G X 29 (fuelbytes Fm Ft tb.length) [elemV e, bytesV out] [bytesV tb.reverse, bytesV tb.reverse] := by
+  let e0 : Env := Env.ofList [elemV e, bytesV out]
+  let e1 := e0.set 3 (limbsV [0, 0, 0, 0])
+  let e2 := e1.set 3 (limbsV fm)
+  let e3 := e2.set 1 (bytesV tb)
+  let e4 := e3.set 1 (bytesV tb.reverse)
+  have c1 : EvIn P G X 1 e0 (.assign 3 [] (.mk (.lit 4) (.lit 0))) e1 .norm := EvIn.assign (evalV_mk4 _)
+  have c2 : EvIn P G X (Fm + 1) e1 (.call [3] 30 [(.var 3), (.idxc (.var 0) 0)]) e2 .norm := by
+    refine hFM.call ?_ rfl
+    have q : evalV G e1 (.idxc (.var 0) 0) = some (limbsV e) := evalV_field0 (by simp [e1, e0, Env.set, Env.ofList])
+    simp only [evalVs_cons, evalVs_nil, evalV_var, q]
+    simp [e1, Env.set]
+  have c3 : EvIn P G X (Ft + 1) e2 (.call [1] 31 [(.var 1), (.var 3)]) e3 .norm := by
+    refine hTB.call ?_ rfl
+    simp only [evalVs_cons, evalVs_nil, evalV_var]
+    simp [e2, e1, e0, Env.set, Env.ofList]
+  have c4 : EvIn P G X (fuelIE tb.length - 1 + 1) e3 (.call [1] 32 [(.var 1)]) e4 .norm := by
+    have hc := ie_computes (P := P) (G := G) (X := X) h32 (tb.map (fun x => Val.int (Int.ofNat x.toNat))) (by simpa using hlen)
+    rw [List.length_map] at hc
+    refine hc.call (env := e3) (lhs := [1]) (env1 := e4) ?_ ?_
+    · simp only [evalVs_cons, evalVs_nil, evalV_var]
+      simp [e3, Env.set, bytesV]
+    · simp only [e4, bytesV_reverse]; rfl
+  have sr : evalVs G e4 [(.var 1), (.var 1)] = some [bytesV tb.reverse, bytesV tb.reverse] := by
+    simp [evalVs_cons, e4, Env.set]
+  refine Computes.of_body h29 rfl rfl (env' := e4) ?_
+  rw [fn_29_body]
+  exact ((Pre.cons c1 (Pre.cons c2 (Pre.cons c3 (Pre.cons c4 (Pre.nil _)))) _).1 _ _ _
+    (EvIn.seq_stop (EvIn.ret sr) (by simp))).mono (by simp only [fuelbytes, fuelIE]; omega)
+
+theorem zeros32 : (Val.arr (List.replicate (32 : Int).toNat (Val.int 0))) = bytesV (List.replicate 32 0) := rfl
+
+/-- fuel for `(*SM2Element).Bytes` -/
+def fuelBytes (Fm Ft n : Nat) : Nat := fuelbytes Fm Ft n + 8
+
+/-- `(*SM2Element).Bytes`, on raw values (the `out` of sm2ToBytes is the zeroed 32-byte array) -/
+theorem Bytes_computes (h28 : P[28]? = some fn_28) (h29 : P[29]? = some fn_29) (h32 : P[32]? = some fn_32) {Fm Ft : Nat}
+    (e fm : List Nat) (tb : Bytes)
+    (hFM : Computes P G X 30 Fm [limbsV [0, 0, 0, 0], limbsV e] [limbsV fm])
+    (hTB : Computes P G X 31 Ft [bytesV (List.replicate 32 0), limbsV fm] [bytesV tb])
+    (hlen : tb.length < 9223372036854775808) :
+    Computes P G X 28 (fuelBytes Fm Ft tb.length - 1) [elemV e] [bytesV tb.reverse] := by
+  let e0 : Env := Env.ofList [elemV e]
+  let e1 := e0.set 2 (bytesV (List.replicate 32 0))
+  let e2 := (e1.set 2 (bytesV tb.reverse)).set 3 (bytesV tb.reverse)
+  have c1 : EvIn P G X 1 e0 (.assign 2 [] (.mk (.lit 32) (.lit 0))) e1 .norm := by
+    refine EvIn.assign ?_
+    rw [evalV_mk]
+    simp only [evalV_lit]
+    exact congrArg some zeros32
+  have c2 : EvIn P G X (fuelbytes Fm Ft tb.length + 1) e1 (.call [2, 3] 29 [(.var 0), (.var 2)]) e2 .norm := by
+    refine (bytes_computes (P := P) (G := G) (X := X) h29 h32 e fm _ tb hFM hTB hlen).call ?_ rfl
+    simp only [evalVs_cons, evalVs_nil, evalV_var]
+    simp [e1, e0, Env.set, Env.ofList]
+  have sr : evalVs G e2 [(.var 3)] = some [bytesV tb.reverse] := by simp [evalVs_cons, e2, Env.set]
+  refine Computes.of_body h28 rfl rfl (env' := e2) ?_
+  rw [fn_28_body]
+  exact ((Pre.cons c1 (Pre.cons c2 (Pre.nil _)) _).1 _ _ _
+    (EvIn.seq_stop (EvIn.ret sr) (by simp))).mono (by simp only [fuelBytes]; omega)
+
+end BytesFn
+
+
+/-! ### The wrappers over an abstract `FieldOps` -/
+
+/-- the program contains the generated wrappers (true for `prog`, and for every slice that keeps them) -/
+structure HasWrappers (P : Prog) : Prop where
+  h0 : P[0]? = some fn_0
+  h28 : P[28]? = some fn_28
+  h29 : P[29]? = some fn_29
+  h32 : P[32]? = some fn_32
+  h33 : P[33]? = some fn_33
+  h37 : P[37]? = some fn_37
+  h38 : P[38]? = some fn_38
+
+theorem prog_hasWrappers : HasWrappers prog := ⟨rfl, rfl, rfl, rfl, rfl, rfl, rfl⟩
+
+/-- byte-array equality as `subtle.ConstantTimeCompare` computes it, on encodings of byte strings -/
+theorem ctEq_bytes (a : Bytes) : ∀ b : Bytes,
+    ctEqList (a.map (fun x => Val.int (Int.ofNat x.toNat))) (b.map (fun x => Val.int (Int.ofNat x.toNat)))
+      = some (if a = b then 1 else 0) := by
+  induction a with
+  | nil => intro b; cases b <;> simp [ctEqList]
+  | cons x as ih =>
+    intro b
+    cases b with
+    | nil => simp [ctEqList]
+    | cons y bs =>
+      simp only [List.map_cons, ctEqList, ih bs]
+      by_cases hxy : x = y
+      · subst hxy
+        by_cases hab : as = bs
+        · simp [hab]
+        · simp [hab]
+      · have : ¬ ((x.toNat : Int) = (y.toNat : Int)) := by
+          intro h; exact hxy (UInt8.toNat_inj.mp (Int.ofNat.inj h))
+        simp [hxy, this]
+
+theorem evalV_cteq_bytes {G : Nat → Val} {env : Env} {ea eb : Expr} {a b : Bytes} (ha : evalV G env ea = some (bytesV a))
+    (hb : evalV G env eb = some (bytesV b)) :
+    evalV G env (.cteq ea eb) = some (.int (((if a = b then 1 else 0 : Nat) : Nat) : Int)) := by
+  rw [evalV_cteq, ha, hb]
+  simp only [bytesV, ctEq_bytes, Option.map_some]
+  split <;> rfl
+
+theorem fn_38_body : fn_38.body =
+    seqs ([.call [2] 28 [(.var 0)], .assign 3 [] (.var 2)] ++ [.seq (.ret [(.cteq (.var 3) (.glob 2))]) .panic]) := rfl
+
+theorem fn_37_body : fn_37.body =
+    seqs ([.call [3] 28 [(.var 0)], .assign 4 [] (.var 3), .call [5] 28 [(.var 1)], .assign 6 [] (.var 5)]
+      ++ [.seq (.ret [(.cteq (.var 4) (.var 6))]) .panic]) := rfl
+
+section FieldLevel
+variable {α : Type} {P : Prog} {G : Nat → Val} {X : Oracle}
+
+/-- HYPOTHESES on the two Fiat primitives used by `Bytes`, at the element `x` (encoded by its limbs `enc x`):
+    sm2FromMontgomery (function 30, called with a zeroed `tmp`) and sm2ToBytes (function 31, called with the
+    zeroed 32-byte `out`) compute the model's primitives, and the byte string has 32 bytes -/
+structure BytesPrims (P : Prog) (G : Nat → Val) (X : Oracle) (F : Model.Field.FieldOps α) (enc : α → List Nat)
+    (Fm Ft : Nat) (x : α) : Prop where
+  fm : Computes P G X f_fiat_sm2FromMontgomery Fm [limbsV [0, 0, 0, 0], limbsV (enc x)] [limbsV (enc (F.fromMontgomery x))]
+  tb : Computes P G X f_fiat_sm2ToBytes Ft [bytesV (List.replicate 32 0), limbsV (enc (F.fromMontgomery x))]
+        [bytesV (F.toBytesLE (F.fromMontgomery x))]
+  len : (F.toBytesLE (F.fromMontgomery x)).length = 32
+
+/-- fuel for Bytes with a 32-byte encoding: `Fm + Ft + 172` -/
+def fuelBytes32 (Fm Ft : Nat) : Nat := fuelBytes Fm Ft 32
+
+/-- **Bytes** computes `Model.Field.bytes` -/
+theorem Bytes_field (hw : HasWrappers P) {F : Model.Field.FieldOps α} {enc : α → List Nat} {Fm Ft : Nat} {x : α}
+    (h : BytesPrims P G X F enc Fm Ft x) :
+    Computes P G X f_fiat_SM2Element_Bytes (fuelBytes32 Fm Ft - 1) [elemV (enc x)] [bytesV (Model.Field.bytes F x)] := by
+  have := Bytes_computes (P := P) (G := G) (X := X) hw.h28 hw.h29 hw.h32 (enc x) (enc (F.fromMontgomery x))
+    (F.toBytesLE (F.fromMontgomery x)) h.fm h.tb (by rw [h.len]; decide)
+  rw [h.len] at this
+  exact this
+
+/-- fuel for IsZero -/
+def fuelIsZero (Fm Ft : Nat) : Nat := fuelBytes32 Fm Ft + 8
+
+/-- **IsZero** computes `Model.Field.isZero`, given that the global sm2ZeroEncoding (global 2) holds the
+    encoding of the zero element -/
+theorem IsZero_field (hw : HasWrappers P) {F : Model.Field.FieldOps α} {enc : α → List Nat} {Fm Ft : Nat} {x : α}
+    (h : BytesPrims P G X F enc Fm Ft x) (hG : G 2 = bytesV (Model.Field.bytes F F.zero)) :
+    Computes P G X f_fiat_SM2Element_IsZero (fuelIsZero Fm Ft - 1) [elemV (enc x)]
+      [.int ((Model.Field.isZero F x : Nat) : Int)] := by
+  let e0 : Env := Env.ofList [elemV (enc x)]
+  let e1 := e0.set 2 (bytesV (Model.Field.bytes F x))
+  let e2 := e1.set 3 (bytesV (Model.Field.bytes F x))
+  have c1 : EvIn P G X (fuelBytes32 Fm Ft - 1 + 1) e0 (.call [2] 28 [(.var 0)]) e1 .norm := by
+    refine (Bytes_field hw h).call ?_ rfl
+    simp only [evalVs_cons, evalVs_nil, evalV_var]
+    simp [e0, Env.ofList]
+  have c2 : EvIn P G X 1 e1 (.assign 3 [] (.var 2)) e2 .norm := EvIn.assign (by simp [e1, Env.set])
+  have sr : evalVs G e2 [(.cteq (.var 3) (.glob 2))] = some [.int ((Model.Field.isZero F x : Nat) : Int)] := by
+    have q := evalV_cteq_bytes (G := G) (env := e2) (ea := .var 3) (eb := .glob 2) (a := Model.Field.bytes F x)
+      (b := Model.Field.bytes F F.zero) (by simp [e2, Env.set]) (by simp [hG])
+    simp only [evalVs_cons, evalVs_nil, q, Model.Field.isZero]
+  refine Computes.of_body hw.h38 rfl rfl (env' := e2) ?_
+  rw [fn_38_body]
+  exact ((Pre.cons c1 (Pre.cons c2 (Pre.nil _)) _).1 _ _ _
+    (EvIn.seq_stop (EvIn.ret sr) (by simp))).mono (by simp only [fuelIsZero, fuelBytes32, fuelBytes, fuelbytes]; omega)
+
+/-- fuel for Equal -/
+def fuelEqual (Fm Ft : Nat) : Nat := 2 * fuelBytes32 Fm Ft + 12
+
+/-- **Equal** computes `Model.Field.equal` -/
+theorem Equal_field (hw : HasWrappers P) {F : Model.Field.FieldOps α} {enc : α → List Nat} {Fm Ft : Nat} {x t : α}
+    (hx : BytesPrims P G X F enc Fm Ft x) (ht : BytesPrims P G X F enc Fm Ft t) :
+    Computes P G X f_fiat_SM2Element_Equal (fuelEqual Fm Ft - 1) [elemV (enc x), elemV (enc t)]
+      [.int ((Model.Field.equal F x t : Nat) : Int)] := by
+  let e0 : Env := Env.ofList [elemV (enc x), elemV (enc t)]
+  let e1 := e0.set 3 (bytesV (Model.Field.bytes F x))
+  let e2 := e1.set 4 (bytesV (Model.Field.bytes F x))
+  let e3 := e2.set 5 (bytesV (Model.Field.bytes F t))
+  let e4 := e3.set 6 (bytesV (Model.Field.bytes F t))
+  have c1 : EvIn P G X (fuelBytes32 Fm Ft - 1 + 1) e0 (.call [3] 28 [(.var 0)]) e1 .norm := by
+    refine (Bytes_field hw hx).call ?_ rfl
+    simp only [evalVs_cons, evalVs_nil, evalV_var]
+    simp [e0, Env.ofList]
+  have c2 : EvIn P G X 1 e1 (.assign 4 [] (.var 3)) e2 .norm := EvIn.assign (by simp [e1, Env.set])
+  have c3 : EvIn P G X (fuelBytes32 Fm Ft - 1 + 1) e2 (.call [5] 28 [(.var 1)]) e3 .norm := by
+    refine (Bytes_field hw ht).call ?_ rfl
+    simp only [evalVs_cons, evalVs_nil, evalV_var]
+    simp [e2, e1, e0, Env.set, Env.ofList]
+  have c4 : EvIn P G X 1 e3 (.assign 6 [] (.var 5)) e4 .norm := EvIn.assign (by simp [e3, Env.set])
+  have sr : evalVs G e4 [(.cteq (.var 4) (.var 6))] = some [.int ((Model.Field.equal F x t : Nat) : Int)] := by
+    have q := evalV_cteq_bytes (G := G) (env := e4) (ea := .var 4) (eb := .var 6) (a := Model.Field.bytes F x)
+      (b := Model.Field.bytes F t) (by simp [e4, e3, e2, Env.set]) (by simp [e4, Env.set])
+    simp only [evalVs_cons, evalVs_nil, q, Model.Field.equal]
+  refine Computes.of_body hw.h37 rfl rfl (env' := e4) ?_
+  rw [fn_37_body]
+  exact ((Pre.cons c1 (Pre.cons c2 (Pre.cons c3 (Pre.cons c4 (Pre.nil _)))) _).1 _ _ _
+    (EvIn.seq_stop (EvIn.ret sr) (by simp))).mono (by simp only [fuelEqual, fuelBytes32, fuelBytes, fuelbytes]; omega)
+
+end FieldLevel
+
+
+/-! ### SetBytes -/
+
+def sbErr : Stmt := .ret [(.var 0), (.mk (.lit 1) (.mk (.lit 4) (.lit 0))), (.lit 1)]
+def sbIte1 : Stmt := .ite (.op2 .ne (.len (.var 1)) (.lit 32)) sbErr .skip
+def sbCall : Stmt := .call [3] 0 [(.var 1), (.glob 1), (.lit 32)]
+def sbDecl : Stmt := .declass 4 2 (.op2 .gt (.var 3) (.lit 0))
+def sbIte2 : Stmt := .ite (.var 4) sbErr .skip
+def sbCopy : Expr := .cat (.slice (.var 5) (.lit 0) (.lit 0)) (.cat (.slice (.var 1) (.lit 0) (.var 6)) (.slice (.var 5) (.op2 (.add .i64) (.lit 0) (.var 6)) (.len (.var 5))))
+def sbTail : List Stmt := [.assign 5 [] (.mk (.lit 32) (.lit 0)),
+    .assign 6 [] (.op2 .min (.op2 (.sub .i64) (.len (.var 5)) (.lit 0)) (.len (.var 1))),
+    .assign 5 [] sbCopy,
+    .call [5] 32 [(.var 5)],
+    .assign 7 [] (.mk (.lit 4) (.lit 0)),
+    .call [7] 35 [(.var 7), (.var 5)],
+    .call [8] 36 [(.idxc (.var 0) 0), (.var 7)],
+    .assign 0 [.c 0] (.var 8)]
+def sbRet : Stmt := .seq (.ret [(.var 0), (.var 0), (.lit 0)]) .panic
+
+/-- the body of SetBytes, cut after the length test -/
+theorem fn_33_body1 : fn_33.body = .seq sbIte1 (seqs ([sbCall, sbDecl] ++ [seqs ([sbIte2] ++ [seqs (sbTail ++ [sbRet])])])) := rfl
+/-- … after the verdict of the comparison -/
+theorem fn_33_body2 : fn_33.body = seqs ([sbIte1, sbCall, sbDecl] ++ [.seq sbIte2 (seqs (sbTail ++ [sbRet]))]) := rfl
+/-- … and as one straight line -/
+theorem fn_33_body3 : fn_33.body = seqs (([sbIte1, sbCall, sbDecl, sbIte2] ++ sbTail) ++ [sbRet]) := rfl
+
+theorem sliceList_front (l : List Val) : sliceList l 0 0 = some [] := by
+  have : ¬ ((0 : Int) < 0 ∨ (0 : Int) < 0 ∨ (l.length : Int) < 0) := by omega
+  simp [sliceList, this]
+
+theorem sliceList_full (l : List Val) : sliceList l 0 (l.length : Int) = some l := by
+  have : ¬ ((0 : Int) < 0 ∨ (l.length : Int) < 0 ∨ (l.length : Int) < (l.length : Int)) := by omega
+  simp [sliceList, this]
+
+theorem sliceList_back (l : List Val) : sliceList l (l.length : Int) (l.length : Int) = some [] := by
+  have : ¬ ((l.length : Int) < 0 ∨ (l.length : Int) < (l.length : Int) ∨ (l.length : Int) < (l.length : Int)) := by omega
+  simp [sliceList, this]
+
+section SetBytes
+variable {α : Type} {P : Prog} {G : Nat → Val} {X : Oracle}
+
+/-- what the error paths of SetBytes return: the receiver unchanged, a zero element (the IR's stand-in for the
+    `nil` pointer result), and the error flag 1 -/
+theorem sb_err_ret {env : Env} {old : List Nat} (h0 : env 0 = elemV old) :
+    EvIn P G X 1 env sbErr env (.ret [elemV old, elemV [0, 0, 0, 0], .int 1]) := by
+  refine EvIn.ret ?_
+  have q : evalV G env (.mk (.lit 1) (.mk (.lit 4) (.lit 0))) = some (elemV [0, 0, 0, 0]) := by
+    rw [evalV_mk, evalV_mk]; rfl
+  simp only [evalVs_cons, evalVs_nil, evalV_var, evalV_lit, q, h0]
+
+theorem sb_ite1_cond {env : Env} {v : Bytes} (h1 : env 1 = bytesV v) :
+    evalV G env (.op2 .ne (.len (.var 1)) (.lit 32)) = some (.int (ofBool (decide (v.length ≠ 32)))) := by
+  simp only [evalV_op2, evalV_len, evalV_var, evalV_lit, h1, bytesV, evalOp2, Option.map_some, List.length_map]
+  congr 3
+  by_cases h : v.length = 32
+  · simp [h]
+  · have : ¬ ((v.length : Int) = 32) := by omega
+    simp [h, this]
+
+/-- a wrong length: the first error path -/
+theorem sb_len_err (hw : HasWrappers P) (old : List Nat) (v : Bytes) (hlen : v.length ≠ 32) :
+    Computes P G X f_fiat_SM2Element_SetBytes 4 [elemV old, bytesV v] [elemV old, elemV [0, 0, 0, 0], .int 1] := by
+  refine Computes.of_body hw.h33 rfl rfl (env' := Env.ofList [elemV old, bytesV v]) ?_
+  rw [fn_33_body1]
+  have hc := sb_ite1_cond (G := G) (env := Env.ofList [elemV old, bytesV v]) (v := v) rfl
+  rw [show decide (v.length ≠ 32) = true from by simp [hlen]] at hc
+  exact (EvIn.seq_stop (EvIn.ite hc rfl (sb_err_ret rfl)) (by simp)).mono (by decide)
+
+/-- the state after the comparison and its declassified verdict -/
+def sbEnvD (old : List Nat) (v : Bytes) (c : Int) : Env :=
+  ((Env.ofList [elemV old, bytesV v]).set 3 (.int c)).set 4 (.int (ofBool (decide (0 < c))))
+
+/-- right length, the comparison returns `c`: the prefix up to the verdict -/
+theorem sb_prefix (hw : HasWrappers P) (old : List Nat) (v m1 : Bytes) (hlen : v.length = 32) (hG : G 1 = bytesV m1) (c : Int)
+    (hc : Model.Utils.constantTimeCmp (some v) (some m1) 32 = .ok c) :
+    Pre P G X 400 (Env.ofList [elemV old, bytesV v]) [sbIte1, sbCall, sbDecl] (sbEnvD old v c) := by
+  let e0 : Env := Env.ofList [elemV old, bytesV v]
+  let e1 := e0.set 3 (.int c)
+  have c0 : EvIn P G X 2 e0 sbIte1 e0 .norm := by
+    have hcond := sb_ite1_cond (G := G) (env := e0) (v := v) rfl
+    rw [show decide (v.length ≠ 32) = false from by simp [hlen]] at hcond
+    exact EvIn.ite hcond rfl (EvIn.skip _)
+  obtain ⟨envc, hb⟩ := cmp_body_ok (P := P) (G := G) (X := X) v m1 32 (by decide) (by decide) c hc
+  have c1 : EvIn P G X (fuelCmp 32 - 1 + 1) e0 sbCall e1 .norm := by
+    refine EvIn.call (vs := [bytesV v, bytesV m1, .int 32]) ?_ hw.h0 rfl rfl hb rfl
+    simp only [evalVs_cons, evalVs_nil, evalV_var, evalV_glob, evalV_lit, hG]
+    rfl
+  have c2 : EvIn P G X 1 e1 sbDecl (sbEnvD old v c) .norm := by
+    refine EvIn.declass ?_
+    have g3 : e1 3 = .int c := by simp [e1, Env.set]
+    simp only [evalV_op2, evalV_var, evalV_lit, g3, evalOp2, Option.map_some]
+  exact (Pre.cons c0 (Pre.cons c1 (Pre.cons c2 (Pre.nil _)))).mono (by simp only [fuelCmp]; decide)
+
+/-- the value is above `m - 1`: the second error path -/
+theorem sb_cmp_err (hw : HasWrappers P) (old : List Nat) (v m1 : Bytes) (hlen : v.length = 32) (hG : G 1 = bytesV m1) (c : Int)
+    (hc : Model.Utils.constantTimeCmp (some v) (some m1) 32 = .ok c) (hpos : 0 < c) :
+    Computes P G X f_fiat_SM2Element_SetBytes 404 [elemV old, bytesV v] [elemV old, elemV [0, 0, 0, 0], .int 1] := by
+  have hp := sb_prefix (P := P) (G := G) (X := X) hw old v m1 hlen hG c hc
+  refine Computes.of_body hw.h33 rfl rfl (env' := sbEnvD old v c) ?_
+  rw [fn_33_body2]
+  have g4 : evalV G (sbEnvD old v c) (.var 4) = some (.int 1) := by simp [sbEnvD, Env.set, hpos, ofBool]
+  have g0 : (sbEnvD old v c) 0 = elemV old := by simp [sbEnvD, Env.set, Env.ofList]
+  exact ((hp _).1 _ _ _ (EvIn.seq_stop (EvIn.ite g4 rfl (sb_err_ret g0)) (by simp))).mono (by decide)
+
+/-- the comparison runs out of its arguments (cannot happen when the encoding of `m - 1` has 32 bytes): stuck -/
+theorem sb_cmp_stuck (hw : HasWrappers P) (old : List Nat) (v m1 : Bytes) (hlen : v.length = 32) (hG : G 1 = bytesV m1)
+    (hc : Model.Utils.constantTimeCmp (some v) (some m1) 32 = .panic) :
+    ∀ f, runV P G X f f_fiat_SM2Element_SetBytes [elemV old, bytesV v] = .stuck := by
+  refine runV_of_Stuck hw.h33 ?_
+  rw [fn_33_body1]
+  let e0 : Env := Env.ofList [elemV old, bytesV v]
+  have c0 : EvIn P G X 2 e0 sbIte1 e0 .norm := by
+    have hcond := sb_ite1_cond (G := G) (env := e0) (v := v) rfl
+    rw [show decide (v.length ≠ 32) = false from by simp [hlen]] at hcond
+    exact EvIn.ite hcond rfl (EvIn.skip _)
+  refine Stuck.seq_right c0 (Stuck.seq_left ?_)
+  refine Stuck.call (vs := [bytesV v, bytesV m1, .int 32]) ?_ hw.h0
+    (cmp_body_stuck (P := P) (G := G) (X := X) v m1 32 (by decide) (by decide) hc)
+  simp only [evalVs_cons, evalVs_nil, evalV_var, evalV_glob, evalV_lit, hG]
+  rfl
+
+theorem evalV_mk32 (env : Env) : evalV G env (.mk (.lit 32) (.lit 0)) = some (bytesV (List.replicate 32 0)) := by
+  rw [evalV_mk]
+  simp only [evalV_lit]
+  exact congrArg some zeros32
+
+/-- the success path: copy, reverse, sm2FromBytes, sm2ToMontgomery, store.  `fbl`, `tml` are the limbs computed by
+    the two primitives -/
+theorem sb_cmp_ok (hw : HasWrappers P) (old : List Nat) (v m1 : Bytes) (hlen : v.length = 32) (hG : G 1 = bytesV m1) (c : Int)
+    (hc : Model.Utils.constantTimeCmp (some v) (some m1) 32 = .ok c) (hle : ¬ 0 < c) {Fb Fo : Nat} (fbl tml : List Nat)
+    (hFB : Computes P G X f_fiat_sm2FromBytes Fb [limbsV [0, 0, 0, 0], bytesV v.reverse] [limbsV fbl])
+    (hTM : Computes P G X f_fiat_sm2ToMontgomery Fo [limbsV old, limbsV fbl] [limbsV tml]) :
+    Computes P G X f_fiat_SM2Element_SetBytes (Fb + Fo + 600) [elemV old, bytesV v] [elemV tml, elemV tml, .int 0] := by
+  have hp := sb_prefix (P := P) (G := G) (X := X) hw old v m1 hlen hG c hc
+  let d := sbEnvD old v c
+  have d0 : d 0 = elemV old := by simp [d, sbEnvD, Env.set, Env.ofList]
+  have d1 : d 1 = bytesV v := by simp [d, sbEnvD, Env.set, Env.ofList]
+  have g4 : evalV G d (.var 4) = some (.int 0) := by simp [d, sbEnvD, Env.set, hle, ofBool]
+  have c0 : EvIn P G X 2 d sbIte2 d .norm := EvIn.ite g4 rfl (EvIn.skip _)
+  let e1 := d.set 5 (bytesV (List.replicate 32 0))
+  let e2 := e1.set 6 (.int 32)
+  let e3 := e2.set 5 (bytesV v)
+  let e4 := e3.set 5 (bytesV v.reverse)
+  let e5 := e4.set 7 (limbsV [0, 0, 0, 0])
+  let e6 := e5.set 7 (limbsV fbl)
+  let e7 := e6.set 8 (limbsV tml)
+  let e8 := e7.set 0 (elemV tml)
+  have c1 : EvIn P G X 1 d (.assign 5 [] (.mk (.lit 32) (.lit 0))) e1 .norm := EvIn.assign (evalV_mk32 _)
+  have c2 : EvIn P G X 1 e1 (.assign 6 [] (.op2 .min (.op2 (.sub .i64) (.len (.var 5)) (.lit 0)) (.len (.var 1)))) e2 .norm := by
+    refine EvIn.assign ?_
+    have g5 : e1 5 = bytesV (List.replicate 32 0) := by simp [e1, Env.set]
+    have g1 : e1 1 = bytesV v := by simp [e1, Env.set, d1]
+    simp only [evalV_op2, evalV_len, evalV_var, evalV_lit, g5, g1, bytesV, List.length_map, List.length_replicate, hlen,
+      evalOp2, Option.map_some]
+    rfl
+  have c3 : EvIn P G X 1 e2 (.assign 5 [] sbCopy) e3 .norm := by
+    refine EvIn.assign ?_
+    have g5 : e2 5 = bytesV (List.replicate 32 0) := by simp [e2, e1, Env.set]
+    have g1 : e2 1 = bytesV v := by simp [e2, e1, Env.set, d1]
+    have g6 : e2 6 = .int 32 := by simp [e2, Env.set]
+    have l5 : ((List.replicate 32 (0 : UInt8)).map (fun x => Val.int (Int.ofNat x.toNat))).length = 32 := by simp
+    have lv : (v.map (fun x => Val.int (Int.ofNat x.toNat))).length = 32 := by simp [hlen]
+    have s1 := sliceList_front ((List.replicate 32 (0 : UInt8)).map (fun x => Val.int (Int.ofNat x.toNat)))
+    have s2 := sliceList_full (v.map (fun x => Val.int (Int.ofNat x.toNat)))
+    have s3 := sliceList_back ((List.replicate 32 (0 : UInt8)).map (fun x => Val.int (Int.ofNat x.toNat)))
+    rw [lv] at s2
+    rw [l5] at s3
+    have s2' : sliceList (v.map (fun x => Val.int (Int.ofNat x.toNat))) 0 32 = some (v.map (fun x => Val.int (Int.ofNat x.toNat))) := s2
+    have s3' : sliceList ((List.replicate 32 (0 : UInt8)).map (fun x => Val.int (Int.ofNat x.toNat))) 32 32 = some [] := s3
+    have s3'' : sliceList ((List.replicate 32 (0 : UInt8)).map (fun x => Val.int (Int.ofNat x.toNat))) 32 ((32 : Nat) : Int) = some [] := s3
+    have e32 : norm .i64 (0 + 32) = 32 := by decide
+    simp only [sbCopy, evalV_cat, evalV_slice, evalV_op2, evalV_len, evalV_var, evalV_lit, g5, g1, g6, bytesV, evalOp2,
+      Option.map_some, e32, l5]
+    simp only [s1, s2', s3', s3'', Option.map_some, List.nil_append, List.append_nil]
+  have c4 : EvIn P G X (fuelIE 32 - 1 + 1) e3 (.call [5] 32 [(.var 5)]) e4 .norm := by
+    have hcomp := ie_computes (P := P) (G := G) (X := X) hw.h32 (v.map (fun x => Val.int (Int.ofNat x.toNat)))
+      (by rw [List.length_map, hlen]; decide)
+    rw [List.length_map, hlen] at hcomp
+    refine hcomp.call (env := e3) (lhs := [5]) (env1 := e4) ?_ ?_
+    · simp only [evalVs_cons, evalVs_nil, evalV_var]
+      simp [e3, Env.set, bytesV]
+    · simp only [e4, bytesV_reverse]; rfl
+  have c5 : EvIn P G X 1 e4 (.assign 7 [] (.mk (.lit 4) (.lit 0))) e5 .norm := EvIn.assign (evalV_mk4 _)
+  have c6 : EvIn P G X (Fb + 1) e5 (.call [7] 35 [(.var 7), (.var 5)]) e6 .norm := by
+    refine hFB.call ?_ rfl
+    simp only [evalVs_cons, evalVs_nil, evalV_var]
+    simp [e5, e4, Env.set]
+  have c7 : EvIn P G X (Fo + 1) e6 (.call [8] 36 [(.idxc (.var 0) 0), (.var 7)]) e7 .norm := by
+    refine hTM.call ?_ rfl
+    have q : evalV G e6 (.idxc (.var 0) 0) = some (limbsV old) :=
+      evalV_field0 (by simp [e6, e5, e4, e3, e2, e1, Env.set, d0])
+    simp only [evalVs_cons, evalVs_nil, evalV_var, q]
+    simp [e6, Env.set]
+  have c8 : EvIn P G X 1 e7 (.assign 0 [.c 0] (.var 8)) e8 .norm := by
+    have s : evalV G e7 (.var 8) = some (limbsV tml) := by simp [e7, Env.set]
+    have g0 : e7 0 = .arr [limbsV old] := by simp [e7, e6, e5, e4, e3, e2, e1, Env.set, d0, elemV]
+    exact EvIn.assignPath s (ks := [0]) (by simp [pathV_c]) (by rw [g0, updPath_c1 _ _ _ (by simp)]; rfl)
+  have sr : evalVs G e8 [(.var 0), (.var 0), (.lit 0)] = some [elemV tml, elemV tml, .int 0] := by
+    simp [evalVs_cons, e8, Env.set]
+  refine Computes.of_body hw.h33 rfl rfl (env' := e8) ?_
+  rw [fn_33_body3]
+  have htail := Pre.cons c0 (Pre.cons c1 (Pre.cons c2 (Pre.cons c3 (Pre.cons c4 (Pre.cons c5 (Pre.cons c6
+    (Pre.cons c7 (Pre.cons c8 (Pre.nil _)))))))))
+  exact (((Pre.append hp htail) _).1 _ _ _ (EvIn.seq_stop (EvIn.ret sr) (by simp))).mono (by simp only [fuelIE]; omega)
+
+
+/-- HYPOTHESES on the two Fiat primitives used by `SetBytes`, at the input `v` and the old limbs `old` of the
+    receiver: sm2FromBytes (function 35, called with a zeroed `tmp` and the reversed input) and sm2ToMontgomery
+    (function 36, called with `&e.x` as destination) compute the model's primitives -/
+structure SetBytesPrims (P : Prog) (G : Nat → Val) (X : Oracle) (F : Model.Field.FieldOps α) (enc : α → List Nat)
+    (Fb Fo : Nat) (old : List Nat) (v : Bytes) : Prop where
+  fb : Computes P G X f_fiat_sm2FromBytes Fb [limbsV [0, 0, 0, 0], bytesV v.reverse] [limbsV (enc (F.fromBytesLE v.reverse))]
+  tm : Computes P G X f_fiat_sm2ToMontgomery Fo [limbsV old, limbsV (enc (F.fromBytesLE v.reverse))]
+        [limbsV (enc (F.toMontgomery (F.fromBytesLE v.reverse)))]
+
+/-- fuel for SetBytes: `Fb + Fo + 600` -/
+def fuelSetBytes (Fb Fo : Nat) : Nat := Fb + Fo + 600
+
+/-- **SetBytes**, the model returns an element: the IR stores it in the receiver and returns (receiver, receiver, nil) -/
+theorem SetBytes_ok (hw : HasWrappers P) {F : Model.Field.FieldOps α} {enc : α → List Nat} {Fb Fo : Nat}
+    (hG : G 1 = bytesV (Model.Field.minusOneEncoding F)) (old : List Nat) (v : Bytes) (e' : α)
+    (h : Model.Field.setBytes F v = .ok e') (hp : SetBytesPrims P G X F enc Fb Fo old v) :
+    Computes P G X f_fiat_SM2Element_SetBytes (fuelSetBytes Fb Fo) [elemV old, bytesV v]
+      [elemV (enc e'), elemV (enc e'), .int 0] := by
+  by_cases hlen : v.length = 32
+  · cases hc : Model.Utils.constantTimeCmp (some v) (some (Model.Field.minusOneEncoding F)) 32 with
+    | err => simp [Model.Field.setBytes, hlen, hc] at h
+    | panic => simp [Model.Field.setBytes, hlen, hc] at h
+    | ok c =>
+      by_cases hpos : 0 < c
+      · simp [Model.Field.setBytes, hlen, hc, hpos] at h
+      · simp only [Model.Field.setBytes, hlen, hc, gt_iff_lt, hpos, if_false, ne_eq, not_true_eq_false,
+          Outcome.ok.injEq] at h
+        subst h
+        exact sb_cmp_ok hw old v _ hlen hG c hc hpos _ _ hp.fb hp.tm
+  · simp [Model.Field.setBytes, hlen] at h
+
+/-- **SetBytes**, the model returns an error (wrong length, or a value above `m - 1`): the receiver is unchanged,
+    the results are a zero element (the IR's `nil`) and the error flag 1; no primitive is called -/
+theorem SetBytes_err (hw : HasWrappers P) {F : Model.Field.FieldOps α}
+    (hG : G 1 = bytesV (Model.Field.minusOneEncoding F)) (old : List Nat) (v : Bytes)
+    (h : Model.Field.setBytes F v = .err) :
+    Computes P G X f_fiat_SM2Element_SetBytes 404 [elemV old, bytesV v] [elemV old, elemV [0, 0, 0, 0], .int 1] := by
+  by_cases hlen : v.length = 32
+  · cases hc : Model.Utils.constantTimeCmp (some v) (some (Model.Field.minusOneEncoding F)) 32 with
+    | err => simp [Model.Field.setBytes, hlen, hc] at h
+    | panic => simp [Model.Field.setBytes, hlen, hc] at h
+    | ok c =>
+      by_cases hpos : 0 < c
+      · exact sb_cmp_err hw old v _ hlen hG c hc hpos
+      · simp [Model.Field.setBytes, hlen, hc, hpos] at h
+  · exact (sb_len_err hw old v hlen).mono (by decide)
+
+/-- ConstantTimeCmp never returns an error -/
+theorem cmp_ne_err (a b : Bytes) (l : Int) : Model.Utils.constantTimeCmp (some a) (some b) l ≠ .err := by
+  rw [cmp_unfold]
+  cases hm : Model.Utils.cmpLoop a b l.toNat 0 0 with
+  | err => exact absurd hm (cmpLoop_ne_err a b _ _ _)
+  | panic => simp
+  | ok p => simp
+
+/-- **SetBytes**, the model panics (the comparison reads beyond the encoding of `m - 1`): the IR run is stuck -/
+theorem SetBytes_panic (hw : HasWrappers P) {F : Model.Field.FieldOps α}
+    (hG : G 1 = bytesV (Model.Field.minusOneEncoding F)) (old : List Nat) (v : Bytes)
+    (h : Model.Field.setBytes F v = .panic) :
+    ∀ f, runV P G X f f_fiat_SM2Element_SetBytes [elemV old, bytesV v] = .stuck := by
+  by_cases hlen : v.length = 32
+  · cases hc : Model.Utils.constantTimeCmp (some v) (some (Model.Field.minusOneEncoding F)) 32 with
+    | err => exact absurd hc (cmp_ne_err _ _ _)
+    | panic => exact sb_cmp_stuck hw old v _ hlen hG hc
+    | ok c =>
+      by_cases hpos : 0 < c
+      · simp [Model.Field.setBytes, hlen, hc, hpos] at h
+      · simp [Model.Field.setBytes, hlen, hc, hpos] at h
+  · simp [Model.Field.setBytes, hlen] at h
+
+theorem cmpLoop_ne_panic (a b : Bytes) : ∀ (k : Nat) (bo di : W32), k ≤ a.length → k ≤ b.length →
+    Model.Utils.cmpLoop a b k bo di ≠ .panic := by
+  intro k
+  induction k with
+  | zero => intro bo di _ _; simp [Model.Utils.cmpLoop]
+  | succ j ih =>
+    intro bo di ha hb
+    simp only [Model.Utils.cmpLoop, Outcome.idx, List.getElem?_eq_getElem (show j < a.length by omega),
+      List.getElem?_eq_getElem (show j < b.length by omega), Outcome.bind_ok]
+    exact ih _ _ (by omega) (by omega)
+
+/-- the model of SetBytes cannot panic when the encoding of `m - 1` has (at least) 32 bytes -/
+theorem setBytes_ne_panic (F : Model.Field.FieldOps α) (v : Bytes) (hm : 32 ≤ (Model.Field.minusOneEncoding F).length) :
+    Model.Field.setBytes F v ≠ .panic := by
+  by_cases hlen : v.length = 32
+  · have hne : Model.Utils.cmpLoop v (Model.Field.minusOneEncoding F) (32 : Int).toNat 0 0 ≠ .panic :=
+      cmpLoop_ne_panic _ _ _ _ _ (by rw [hlen]; decide) (by exact hm)
+    cases hc : Model.Utils.constantTimeCmp (some v) (some (Model.Field.minusOneEncoding F)) 32 with
+    | err => exact absurd hc (cmp_ne_err _ _ _)
+    | panic =>
+      rw [cmp_unfold] at hc
+      cases hl : Model.Utils.cmpLoop v (Model.Field.minusOneEncoding F) (32 : Int).toNat 0 0 with
+      | err => rw [hl] at hc; cases hc
+      | panic => exact absurd hl hne
+      | ok p => rw [hl] at hc; cases hc
+    | ok c =>
+      by_cases hpos : 0 < c
+      · simp [Model.Field.setBytes, hlen, hc, hpos]
+      · simp [Model.Field.setBytes, hlen, hc, hpos]
+  · simp [Model.Field.setBytes, hlen]
+
+end SetBytes
+
+
+/-! ### The statements for the generated program `prog`, as runs -/
+
+section Runs
+variable {α : Type} {G : Nat → Val} {X : Oracle}
+
+/-- the hypotheses in their uniform ("for all destinations, all elements") form imply the pointwise ones -/
+theorem BytesPrims.of_forall {P : Prog} {F : Model.Field.FieldOps α} {enc : α → List Nat} {Fm Ft : Nat}
+    (hFM : ∀ tmp e, Computes P G X f_fiat_sm2FromMontgomery Fm [limbsV tmp, limbsV (enc e)] [limbsV (enc (F.fromMontgomery e))])
+    (hTB : ∀ out e, Computes P G X f_fiat_sm2ToBytes Ft [bytesV out, limbsV (enc e)] [bytesV (F.toBytesLE e)])
+    (hlen : ∀ e, (F.toBytesLE e).length = 32) (x : α) : BytesPrims P G X F enc Fm Ft x :=
+  ⟨hFM _ x, hTB _ _, hlen _⟩
+
+theorem SetBytesPrims.of_forall {P : Prog} {F : Model.Field.FieldOps α} {enc : α → List Nat} {Fb Fo : Nat}
+    (hFB : ∀ tmp b, Computes P G X f_fiat_sm2FromBytes Fb [limbsV tmp, bytesV b] [limbsV (enc (F.fromBytesLE b))])
+    (hTM : ∀ out e, Computes P G X f_fiat_sm2ToMontgomery Fo [limbsV out, limbsV (enc e)] [limbsV (enc (F.toMontgomery e))])
+    (old : List Nat) (v : Bytes) : SetBytesPrims P G X F enc Fb Fo old v :=
+  ⟨hFB _ _, hTM _ _⟩
+
+/-- **Bytes** = `Model.Field.bytes` -/
+theorem ir_Bytes {F : Model.Field.FieldOps α} {enc : α → List Nat} {Fm Ft : Nat} {x : α}
+    (h : BytesPrims prog G X F enc Fm Ft x) :
+    ∀ f, fuelBytes32 Fm Ft ≤ f →
+      runV prog G X f f_fiat_SM2Element_Bytes [elemV (enc x)] = .ret [bytesV (Model.Field.bytes F x)] := by
+  intro f hf
+  exact (Bytes_field prog_hasWrappers h).runV f (by omega)
+
+/-- **bytes** (the outlined worker, any destination `out`, any length of the encoding below 2^63): both results
+    are `Model.Field.bytes` -/
+theorem ir_bytes {F : Model.Field.FieldOps α} {enc : α → List Nat} {Fm Ft : Nat} {x : α} (out : Bytes)
+    (hFM : Computes prog G X f_fiat_sm2FromMontgomery Fm [limbsV [0, 0, 0, 0], limbsV (enc x)] [limbsV (enc (F.fromMontgomery x))])
+    (hTB : Computes prog G X f_fiat_sm2ToBytes Ft [bytesV out, limbsV (enc (F.fromMontgomery x))]
+      [bytesV (F.toBytesLE (F.fromMontgomery x))])
+    (hlen : (F.toBytesLE (F.fromMontgomery x)).length < 9223372036854775808) :
+    ∀ f, fuelbytes Fm Ft (F.toBytesLE (F.fromMontgomery x)).length ≤ f →
+      runV prog G X f f_fiat_SM2Element_bytes [elemV (enc x), bytesV out]
+        = .ret [bytesV (Model.Field.bytes F x), bytesV (Model.Field.bytes F x)] :=
+  (bytes_computes prog_hasWrappers.h29 prog_hasWrappers.h32 _ _ out _ hFM hTB hlen).runV
+
+/-- **IsZero** = `Model.Field.isZero` -/
+theorem ir_IsZero {F : Model.Field.FieldOps α} {enc : α → List Nat} {Fm Ft : Nat} {x : α}
+    (h : BytesPrims prog G X F enc Fm Ft x) (hG : G 2 = bytesV (Model.Field.bytes F F.zero)) :
+    ∀ f, fuelIsZero Fm Ft ≤ f →
+      runV prog G X f f_fiat_SM2Element_IsZero [elemV (enc x)] = .ret [.int ((Model.Field.isZero F x : Nat) : Int)] := by
+  intro f hf
+  exact (IsZero_field prog_hasWrappers h hG).runV f (by omega)
+
+/-- **Equal** = `Model.Field.equal` -/
+theorem ir_Equal {F : Model.Field.FieldOps α} {enc : α → List Nat} {Fm Ft : Nat} {x t : α}
+    (hx : BytesPrims prog G X F enc Fm Ft x) (ht : BytesPrims prog G X F enc Fm Ft t) :
+    ∀ f, fuelEqual Fm Ft ≤ f →
+      runV prog G X f f_fiat_SM2Element_Equal [elemV (enc x), elemV (enc t)]
+        = .ret [.int ((Model.Field.equal F x t : Nat) : Int)] := by
+  intro f hf
+  exact (Equal_field prog_hasWrappers hx ht).runV f (by omega)
+
+/-- **SetBytes**, success -/
+theorem ir_SetBytes_ok {F : Model.Field.FieldOps α} {enc : α → List Nat} {Fb Fo : Nat}
+    (hG : G 1 = bytesV (Model.Field.minusOneEncoding F)) (old : List Nat) (v : Bytes) (e' : α)
+    (h : Model.Field.setBytes F v = .ok e') (hp : SetBytesPrims prog G X F enc Fb Fo old v) :
+    ∀ f, fuelSetBytes Fb Fo ≤ f →
+      runV prog G X f f_fiat_SM2Element_SetBytes [elemV old, bytesV v] = .ret [elemV (enc e'), elemV (enc e'), .int 0] :=
+  (SetBytes_ok prog_hasWrappers hG old v e' h hp).runV
+
+/-- **SetBytes**, error -/
+theorem ir_SetBytes_err {F : Model.Field.FieldOps α}
+    (hG : G 1 = bytesV (Model.Field.minusOneEncoding F)) (old : List Nat) (v : Bytes)
+    (h : Model.Field.setBytes F v = .err) :
+    ∀ f, 404 ≤ f →
+      runV prog G X f f_fiat_SM2Element_SetBytes [elemV old, bytesV v] = .ret [elemV old, elemV [0, 0, 0, 0], .int 1] :=
+  (SetBytes_err prog_hasWrappers hG old v h).runV
+
+/-- **SetBytes**, panic of the model (excluded by `setBytes_ne_panic` when the encoding of `m - 1` has 32 bytes) -/
+theorem ir_SetBytes_panic {F : Model.Field.FieldOps α}
+    (hG : G 1 = bytesV (Model.Field.minusOneEncoding F)) (old : List Nat) (v : Bytes)
+    (h : Model.Field.setBytes F v = .panic) :
+    ∀ f, runV prog G X f f_fiat_SM2Element_SetBytes [elemV old, bytesV v] = .stuck :=
+  SetBytes_panic prog_hasWrappers hG old v h
+
+end Runs
+
+#print axioms ir_multiSelect_ok
+#print axioms ir_multiSelect_stuck
+#print axioms ir_select_general
+#print axioms ir_select_ok
+#print axioms select_cond2_disagrees
+#print axioms ir_invertEndianness
+#print axioms ir_bytes
+#print axioms ir_Bytes
+#print axioms ir_IsZero
+#print axioms ir_Equal
+#print axioms ir_SetBytes_ok
+#print axioms ir_SetBytes_err
+#print axioms ir_SetBytes_panic
+#print axioms setBytes_ne_panic
 
 end SMGo.Proofs.CTIRRefineField
